@@ -70,3 +70,6 @@ fn lexer_skip_4() {
 fn lexer_skip_5() {
     skip_harness::<5>()
 }
+
+// Concrete playback (./check <id> --replay): Kani's generated unit test is written to this file, which is empty otherwise.
+include!("/verif/build/gen/playback_rustemo_lexer.rs");
